@@ -8,6 +8,8 @@ if [ ! -f $B/config.h ] || [ ! -f $B/include/opm/input/eclipse/Parser/ParserKeyw
   if [ ! -f $B/build.ninja ]; then cmake -G Ninja -S /repo -B $B >/dev/null; fi
   ninja -C $B include/opm/input/eclipse/Parser/ParserKeywords/A.hpp >/dev/null
 fi
+# the library is only linked into the NATIVE replay of a counterexample (never into the solver-side encoding)
+if [ ! -f $B/lib/libopmcommon.a ]; then ninja -C $B opmcommon >/dev/null 2>&1 || true; fi
 python3-vt -c "import z3; print('z3', z3.get_version_string())"
 clang++-14 --version | head -1
 mkdir -p /verif/evidence /verif/_work /verif/replays
